@@ -235,6 +235,12 @@ func c13World(t *testing.T, r *simcore.Run) any {
 		}
 		tampered[p.d.ID] = kind
 		r.Fault("scion-packet-tampered:" + kind)
+		if !p.toSrv && tp.Bool(1, 3, "twice") {
+			// a tampered response arrives twice (the first copy uses up the client's single retry)
+			// and the genuine one not at all
+			w.extraOut = [][]byte{append([]byte(nil), mut...)}
+			r.Fault("scion-response-tampered-twice")
+		}
 		return false, mut
 	}
 	// ---- wire monitor on everything the server's sockets send and the client's sockets read
